@@ -38,6 +38,13 @@ type sys struct {
 	// argument of a get-or-create call is a sub-slice of ONE reused buffer (names always start at the
 	// same offsets, as rows decoded zero-copy into the replicator's reused decompress buffer do), and
 	// the buffer is overwritten right after the call returns. The model treats names as values.
+	// crash image inside a real Flush: taken by the kv commit hook just before the (imgWant+1)-th
+	// edit-log commit of the store imgStore
+	imgStore string
+	imgWant  int
+	imgCount int
+	imgDir   string
+
 	argBuf  []byte
 	rowBuf  []byte
 	bufBusy atomic.Bool // a second goroutine (witness schedules) gets a private buffer
@@ -83,6 +90,7 @@ func newSys(dbName string, nShards int) (*sys, error) {
 		return nil, err
 	}
 	s := &sys{root: root, dbName: dbName, nShards: nShards, conv: metric.NewProtoConverter(models.NewDefaultLimits())}
+	current.Store(s)
 	if err := s.open(); err != nil {
 		os.RemoveAll(root)
 		return nil, err
@@ -147,7 +155,51 @@ func (s *sys) crash() error {
 	return s.open()
 }
 
+// current is the node whose stores report their kv family commits (one case runs at a time)
+var current atomic.Pointer[sys]
+
+// onCommit is the kv commit hook: called immediately BEFORE an edit log reaches the manifest.
+func onCommit(storePath, _ string) {
+	s := current.Load()
+	if s == nil || s.imgStore == "" || filepath.Clean(storePath) != filepath.Clean(s.imgStore) {
+		return
+	}
+	if s.imgCount == s.imgWant && s.imgDir == "" {
+		dst := filepath.Join(s.root, "img")
+		_ = os.RemoveAll(dst)
+		if err := copyTree(s.genDir(), dst); err == nil {
+			s.imgDir = dst
+		}
+	}
+	s.imgCount++
+}
+
+// indexFlushImage runs the real metricIndexDatabase.Flush of one shard; the process "dies" just before
+// the (j+1)-th kv family commit of that flush (or at its end, when it makes fewer commits): the
+// directory image taken at that point is reopened.
+func (s *sys) indexFlushImage(shard, j int) error {
+	s.imgStore, s.imgWant, s.imgCount, s.imgDir = s.shardDir(shard), j, 0, ""
+	err := s.shards[shard].Flush()
+	s.imgStore = ""
+	if err != nil {
+		return err
+	}
+	if s.imgDir == "" {
+		return s.crash()
+	}
+	src := s.genDir()
+	s.closeDBs()
+	_ = os.RemoveAll(src)
+	s.gen++
+	if err := os.Rename(s.imgDir, s.genDir()); err != nil {
+		return err
+	}
+	s.imgDir = ""
+	return s.open()
+}
+
 func (s *sys) destroy() {
+	current.CompareAndSwap(s, nil)
 	s.closeDBs()
 	_ = os.RemoveAll(s.root)
 }
